@@ -14,9 +14,10 @@ Dependence on `Gen/C02.lean` (stated because `Model/C02.lean`, unlike `Model/C06
 * this file needs `Gen/C02.lean` to be well-typed;
 * `printStar` / `readStar` — the definitions the theorems below are about — are built from these regenerated
   literals, and the proofs in `Lemmas/C02*.lean` unfold them, so the theorems below GENUINELY depend on their values:
-  reader `lineSep`, `commentChar`, `propPrefix`, `loopKw`, `propNameDrop`; writer `cellWidth`, `cellSep`, `rowEnd`,
+  reader `lineSep`, `commentChar`, `propPrefix`, `loopKw`, `propNameDrop`; writer `cellFill`, `cellAlign` (since round 5 `padCell` reads the
+  whole format spec; `Lemmas/C02_Write.padCell_eq` is where the documented `'{:<10}'` enters), `cellWidth`, `cellSep`, `rowEnd`,
   `labelNumbered`, `labelPlain`, `specLine`, `loopLine`, `stopgapExtra`, `blockEnd`.
-  (Checked by perturbation: changing any ONE of these 14 right-hand sides in `Gen/C02.lean` stops a file of
+  (Checked by perturbation: changing any ONE of these 16 right-hand sides in `Gen/C02.lean` stops a file of
   `Lemmas/C02{,_Parse,_Write}.lean` from building.)
   If an edit of the source changes one of THESE, the text the writer produces or the way the reader cuts it changes,
   the round trip is no longer the proved one, and it is right that every property resting on it (C02 and C04) stops
@@ -25,7 +26,7 @@ Dependence on `Gen/C02.lean` (stated because `Model/C02.lean`, unlike `Model/C06
 * NOT used (by value) by anything this file imports: `anchorsOk`, `labelStart` (labels are numbered from whatever
   `Gen.C02.labelStart` is — `Lemmas/C02_Write.layoutOf` — and the reader skips the `#n` comment), `stopgapKw` (the
   round trip holds for the numbered and the un-numbered header alike, whichever block names count as STOPGAP),
-  `classifyOrder`, `floatPrecision`, `roundsBeforeFormat`, `cellFill`, `cellAlign`, `numberedCond`, `labelCall`, `commentLine`,
+  `classifyOrder`, `floatPrecision` (read by `round6Cell` of `Model/C02_Value.lean`, which nothing here imports), `roundsBeforeFormat`, `numberedCond`, `labelCall`, `commentLine`,
   `commentsEnd`, `commentValue`, `commentsOrder`, `dataIdBranch`, `newlineOrComments`, `getSpecifierId`,
   `getFrameAndComments`, the signatures and defaults (`writeSignature`, `readSignature`, `removeLinesSignature`,
   `writeDefaults`, `defaultSpecifier`, `numberColumnsDefault`, `removeLinesNumberColumnsDefault`) and every `body_*`
